@@ -1,6 +1,7 @@
 import UrcuVerif.Handshake.TsoInv
 import UrcuVerif.Handshake.WaitNode
 import UrcuVerif.Handshake.QsbrTsoInv
+import UrcuVerif.Gp.Locks
 /-!
 # C02 — Grace periods always complete once readers leave: no lost wake-up, no deadlock
 
@@ -181,3 +182,25 @@ example : (run { n := 1 } init [.w0, .wArm 0, .k0 0, .k1Clear 0, .flushFutM1, .f
     (fun s => (s.wpc, s.futex)) = some (.wdone, 0) := by decide
 
 end UrcuVerif.QsbrHs
+
+
+/-! ## lock order (`rcu_gp_lock` → `rcu_registry_lock`), any number of threads
+
+`Gp/Locks.lean`: the lock discipline of `synchronize_rcu()` (incl. the release/re-acquire of the registry lock
+around every wait) and of `rcu_(un)register_thread()`; the LOCK/UNLOCK event order of every thread of the real
+code is matched against it by the trace tie. -/
+namespace UrcuVerif.Locks
+
+/-- **lock_order_deadlock_free**: no cycle in the wait-for graph of the two locks – every thread is enabled,
+or waits for a lock whose owner is enabled, or waits for the gp lock whose owner waits for the registry lock
+whose owner is enabled -/
+theorem lock_order_deadlock_free {s : State} (r : Reach s) (t : Nat) :
+    Enabled s t ∨ ∃ o, BlockedOn s t o ∧ (Enabled s o ∨ ∃ o2, BlockedOn s o o2 ∧ Enabled s o2) :=
+  lock_deadlock_free r t
+
+theorem lock_mutual_exclusion {s : State} (r : Reach s) (t u : Nat) :
+    (holdsGp (s.pc t) = true → holdsGp (s.pc u) = true → t = u) ∧
+    (holdsReg (s.pc t) = true → holdsReg (s.pc u) = true → t = u) :=
+  locks_exclusive r t u
+
+end UrcuVerif.Locks
